@@ -1,3 +1,142 @@
 import Driver.Loop
-/- placeholder: the C07 view has no executable model yet -/
-def main : IO Unit := Drv.runLoop fun _ => .atom "bad-op"
+import PMV.Model.Heap
+/- line-protocol handler for the C07 view (heap model of aliasing)
+
+   request : (c07 call <summary> <flag> (keys…) <next> (objs (oid vals mask units ro (k d)…)…)
+                  (arrs (aid buf wr)…) (args v…) (srcs aid…) (sched n…))
+             where vals/mask/units are a cell number or `-`, v is `(o n)|(a n)|(u n)|p`
+   answer  : (<ret|raise> <result> (wr aid…) (ro oid…) <number of other differences on old cells>)
+-/
+namespace Drv.C07
+open PMV PMV.Heap
+
+def err (msg : String) : Sx := .list [.atom "driver-error", .atom msg]
+
+def optNat : Sx → Option (Option Nat)
+  | .atom "-" => some none
+  | x => x.toNat?.map some
+
+def parsePairs : List Sx → Option (List (Nat × Nat))
+  | [] => some []
+  | .list [k, d] :: rest => do
+    let k ← k.toNat?
+    let d ← d.toNat?
+    let r ← parsePairs rest
+    some ((k, d) :: r)
+  | _ => none
+
+def parseObj : Sx → Option (Nat × Obj)
+  | .list (oid :: v :: m :: u :: ro :: ds) => do
+    let oid ← oid.toNat?
+    let v ← optNat v
+    let m ← optNat m
+    let u ← optNat u
+    let ro ← ro.toBool?
+    let ds ← parsePairs ds
+    some (oid, ⟨v, m, u, ds, ro⟩)
+  | _ => none
+
+def parseArr : Sx → Option (Nat × ArrObj)
+  | .list [a, b, w] => do
+    let a ← a.toNat?
+    let b ← b.toNat?
+    let w ← w.toBool?
+    some (a, ⟨b, w⟩)
+  | _ => none
+
+def parseVal : Sx → Option Val
+  | .atom "p" => some .py
+  | .list [.atom "o", n] => n.toNat?.map .obj
+  | .list [.atom "a", n] => n.toNat?.map .arr
+  | .list [.atom "u", n] => n.toNat?.map .units
+  | _ => none
+
+def mkHeap (next : Nat) (objs : List (Nat × Obj)) (arrs : List (Nat × ArrObj)) : Heap :=
+  { buf := fun b => Int.ofNat b + 100,
+    arr := fun a => (arrs.lookup a).getD ⟨0, true⟩,
+    uname := fun u => Int.ofNat u,
+    obj := fun o => (objs.lookup o).getD ⟨none, none, none, [], false⟩,
+    next := next }
+
+def summaryOf (name : String) (flag : Bool) (keys : List Nat) : Option (List Eff) :=
+  match name with
+  | "copy" => some (Summary.copy keys)
+  | "clone" => some (Summary.clone keys)
+  | "wod" => some Summary.wod
+  | "arith" => some (Summary.arith flag keys)
+  | "viewing" => some (Summary.viewing keys)
+  | "fancy" => some (Summary.fancy keys)
+  | "self" => some Summary.self
+  | "broadcast" => some (Summary.broadcast keys)
+  | "inverse" => some (Summary.inverse flag keys)
+  | "inversePinned" => some (Summary.inversePinned flag)
+  | "rot90" => some (Summary.rot90 flag keys)
+  | "mulUnitsPinned" => some Summary.mulUnitsPinned
+  | "mulUnitsFixed" => some Summary.mulUnitsFixed
+  | _ => none
+
+def indexOf (l : List Nat) (p : Nat → Bool) : Option Nat :=
+  (List.range l.length).find? fun i => p (l.getD i 0)
+
+/-- classification of one array reference of the result against the operand arrays `srcs` -/
+def arrDesc (h0 h : Heap) (srcs : List Nat) : Option Nat → Sx
+  | none => .atom "py"
+  | some a =>
+    let w := Sx.ofBool (h.arr a).wr
+    match indexOf srcs (· == a) with
+    | some i => .list [.atom "same", Sx.ofNat i, w]
+    | none =>
+      match indexOf srcs (fun s => (h0.arr s).buf == (h.arr a).buf) with
+      | some i => .list [.atom "view", Sx.ofNat i, w]
+      | none => .list [.atom "fresh", w]
+
+def insertSorted (p : Nat × Nat) : List (Nat × Nat) → List (Nat × Nat)
+  | [] => [p]
+  | q :: r => if p.1 ≤ q.1 then p :: q :: r else q :: insertSorted p r
+
+def resultDesc (h0 h : Heap) (srcs : List Nat) (next0 : Nat) : Val → Sx
+  | .obj o =>
+    if o < next0 then .list [.atom "operand", Sx.ofNat o]
+    else
+      let ob := h.obj o
+      let ds := (ob.derivs.foldr insertSorted [])
+      .list ([.atom "obj", arrDesc h0 h srcs ob.vals, arrDesc h0 h srcs ob.mask, Sx.ofBool ob.ro] ++
+             ds.map fun (k, d) => .list [Sx.ofNat k, arrDesc h0 h srcs (h.obj d).vals, arrDesc h0 h srcs (h.obj d).mask,
+                                         Sx.ofBool (h.obj d).ro])
+  | .units u => if u < next0 then .list [.atom "operand-units", Sx.ofNat u] else .atom "new-units"
+  | .arr a => .list [.atom "array", arrDesc h0 h srcs (some a)]
+  | .py => .atom "py"
+
+def handle : List Sx → Sx
+  | [.atom "call", .atom name, flag, keys, next, .list (.atom "objs" :: objs), .list (.atom "arrs" :: arrs),
+     .list (.atom "args" :: args), .list (.atom "srcs" :: srcs), .list (.atom "sched" :: sched)] =>
+    match flag.toBool?, keys.nats?, next.toNat?, objs.mapM parseObj, arrs.mapM parseArr, args.mapM parseVal,
+          (Sx.list srcs).nats?, (Sx.list sched).nats? with
+    | some flag, some keys, some next, some objs, some arrs, some args, some srcs, some sched =>
+      match summaryOf name flag keys with
+      | none => err "summary"
+      | some p =>
+        let h0 := mkHeap next objs arrs
+        let st := call p h0 ⟨args, fun n => sched.contains n⟩
+        let h := st.h
+        let wr := (arrs.map (·.1)).filter fun a => (h0.arr a).wr && !(h.arr a).wr
+        let ro := (objs.map (·.1)).filter fun o => !(h0.obj o).ro && (h.obj o).ro
+        let other :=
+          ((arrs.map (·.1)).filter fun a => (h.arr a).buf != (h0.arr a).buf || (!(h0.arr a).wr && (h.arr a).wr)).length +
+          ((List.range next).filter fun b => h.buf b != h0.buf b || h.uname b != h0.uname b).length +
+          ((objs.map (·.1)).filter fun o =>
+              (h.obj o).vals != (h0.obj o).vals || (h.obj o).mask != (h0.obj o).mask ||
+              (h.obj o).units != (h0.obj o).units || (h.obj o).derivs != (h0.obj o).derivs ||
+              ((h0.obj o).ro && !(h.obj o).ro)).length
+        .list [.atom (if st.raised then "raise" else "ret"),
+               (if st.raised then .atom "-" else resultDesc h0 h srcs next (st.env 0)),
+               .list (.atom "wr" :: wr.map Sx.ofNat), .list (.atom "ro" :: ro.map Sx.ofNat), Sx.ofNat other]
+    | _, _, _, _, _, _, _, _ => err "operand"
+  | _ => err "c07-op"
+
+end Drv.C07
+
+def main : IO Unit := Drv.runLoop fun x =>
+  match x with
+  | .list (.atom "c07" :: rest) => Drv.C07.handle rest
+  | _ => .atom "bad-op"
